@@ -89,6 +89,13 @@ fn gen_loop_rule(s: &mut Src, cfg: &GenCfg, i: usize, salience: i32) -> RuleAst 
             (c, acts)
         }
     };
+    // a rule without actions still fires (counted, reported to the callback, keeps the loop going); the GRL grammar
+    // has no empty `then`, so only the directly built rules of part `api` get one (no draw on the parser path:
+    // byte-encoded cases of the other parts keep their meaning)
+    let mut actions = actions;
+    if !VIA_PARSER.with(|v| v.get()) && s.chance(1, 6) {
+        actions.clear();
+    }
     RuleAst { name, salience, no_loop, cond, actions }
 }
 
@@ -300,6 +307,9 @@ pub fn run(s: &mut Src, ctx: &mut Ctx) -> Verdict {
     }
     if c.rules.iter().any(|r| r.no_loop) {
         ctx.label("has-no-loop");
+    }
+    if m.seq.iter().any(|f| c.rules.iter().any(|r| r.name == f.rule && r.actions.is_empty())) {
+        ctx.label("fired-a-rule-without-actions");
     }
     if c.max_cycles <= 1 && !m.seq.is_empty() {
         ctx.label("max_cycles<=1-firing");
